@@ -51,7 +51,7 @@ func vhPlanNoop() {
 	}
 	fs := vForest(d, n, arts, hashes)
 	strat := vInt("strat", 1, 15) // at least one flag, no generate-all
-	now1 := time.Now()
+	now1 := vNow()
 	// environment: every file of the directory was last written before the
 	// first run started (no mtimes in the future)
 	for i := 0; i < n; i++ {
@@ -63,7 +63,7 @@ func vhPlanNoop() {
 	vApplyRun(d, fs, list1, now1)
 
 	vClockAdvance()
-	now2 := time.Now()
+	now2 := vNow()
 	// the second run starts after the last write of the first
 	for i := 0; i < n; i++ {
 		vAssume(!now2.Before(fs[i].build))
